@@ -642,6 +642,11 @@ func (x *runner) call(ci int) bool {
 				what = fmt.Sprintf("%s stored height %d hash %X (canonical: %v) below the first trusted height %d, but the header is not linked by LastBlockID hashes to any trusted header through the headers providers returned during the call",
 					cd.Op, h, L.Hash(), canon, first)
 			}
+			if !backward && paddedCommit(L) {
+				// the stored block's commit names the same validator in several for-the-block slots
+				key = "stored-header-below-trust-level-padded-commit"
+				what += "; its commit carries the same validator address or the same signature in several for-the-block slots, and counting every distinct validator once the reference tally stays below what a step needs"
+			}
 			k.Violation(key, what, x.witness(ci, map[string]interface{}{"stored_height": h, "stored_hash": fmt.Sprintf("%X", L.Hash()), "is_canonical": canon, "error_returned": fmt.Sprint(err)}, s0))
 		} else if bOK {
 			// (B) ground truth
@@ -776,6 +781,34 @@ func (x *runner) call(ci int) bool {
 				cd.Op, dchk.th, pid, wids, dchk.t0, strings.Join(problems, "; ")), x.witness(ci, map[string]interface{}{"error_returned": fmt.Sprint(err)}, s0))
 		} else {
 			k.Count("oracleD.attack_reported_with_evidence_both_sides", 1)
+		}
+	}
+
+	// (D'') evidence is built from traces the client has verified: every block a report names as
+	// conflicting must itself be reachable by reference steps (a lying witness whose header cannot be
+	// backed must not end up as the subject or the basis of an attack report)
+	for _, e := range win {
+		if e.Kind != "evidence" || e.lb == nil {
+			continue
+		}
+		k.Count("oracleDev.evidence_blocks_evaluated", 1)
+		if !x.o.reachable(trusted, cands, e.lb, cd.now) {
+			key := "evidence-names-unverifiable-conflicting-block"
+			if paddedCommit(e.lb) {
+				key = "attack-reported-on-padded-commit-header"
+			}
+			k.Violation(key, fmt.Sprintf("%s: evidence handed to p%d names height %d hash %X as the conflicting block, but no chain of reference steps leads to that block from the headers trusted before the call through the light blocks providers returned during the call (the call returned %q)",
+				cd.Op, e.Prov, e.Height, []byte(e.Hash), fmt.Sprint(err)), x.witness(ci, map[string]interface{}{"error_returned": fmt.Sprint(err)}, s0))
+			break
+		}
+	}
+	if d.Stream == "recipe-pad" {
+		k.Count(fmt.Sprintf("recipe_pad.delivery%d.%s", d.Case%4, class), 1)
+		k.Count("recipe_pad.stored_headers", int64(len(fresh)))
+		for _, e := range win {
+			if e.Kind == "reply" && e.lb != nil && paddedCommit(e.lb) {
+				k.Count("recipe_pad.padded_blocks_served", 1)
+			}
 		}
 	}
 
@@ -919,4 +952,23 @@ func (x *runner) fwdLunatic(ci int, cd callDesc, before map[int64]*types.LightBl
 			x.witness(ci, map[string]interface{}{"error_returned": fmt.Sprint(err), "stored": len(fresh), "trust_level": fmt.Sprintf("%d/%d", sc.desc.TrustNum, sc.desc.TrustDen)}, s0))
 		return
 	}
+}
+
+// paddedCommit: does the block's commit carry the same validator address, or the same signature bytes,
+// in more than one for-the-block slot?
+func paddedCommit(lb *types.LightBlock) bool {
+	if lb == nil || lb.SignedHeader == nil || lb.Commit == nil {
+		return false
+	}
+	addr, sig := map[string]bool{}, map[string]bool{}
+	for _, s := range lb.Commit.Signatures {
+		if s.BlockIDFlag != types.BlockIDFlagCommit {
+			continue
+		}
+		if addr[string(s.ValidatorAddress)] || sig[string(s.Signature)] {
+			return true
+		}
+		addr[string(s.ValidatorAddress)], sig[string(s.Signature)] = true, true
+	}
+	return false
 }
